@@ -129,13 +129,24 @@ class Scratch:
         shutil.rmtree(self.dir, ignore_errors=True)
 
 
+def _deep_stack():
+    """preexec hook for coqc children: coqc overflows its stack when it builds or prints a long
+    vm_compute result (a history rendered as one string); raise the soft stack limit to the hard one"""
+    try:
+        import resource
+        hard = resource.getrlimit(resource.RLIMIT_STACK)[1]
+        resource.setrlimit(resource.RLIMIT_STACK, (hard, hard))
+    except Exception:
+        pass
+
+
 def coqc(vpath, cwd, timeout=600, extra_q=()):
     cmd = ["timeout", str(timeout), "coqc", "-Q", COQ, LOGICAL,
            "-w", "-notation-overridden,-deprecated-hint-without-locality,-deprecated-instance-without-locality"]
     for d, n in extra_q:
         cmd += ["-Q", d, n]
     cmd.append(vpath)
-    r = subprocess.run(cmd, cwd=cwd, capture_output=True, text=True)
+    r = subprocess.run(cmd, cwd=cwd, capture_output=True, text=True, preexec_fn=_deep_stack)
     return r.returncode, r.stdout, r.stderr
 
 
@@ -221,7 +232,7 @@ def coq_eval_lines(scratch, name, requires, prelude, exprs, timeout=900, shard=4
                    "-notation-overridden,-deprecated-hint-without-locality,-deprecated-instance-without-locality",
                    fname]
             p = subprocess.Popen(cmd, cwd=scratch.dir, stdout=subprocess.PIPE,
-                                 stderr=subprocess.PIPE, text=True)
+                                 stderr=subprocess.PIPE, text=True, preexec_fn=_deep_stack)
             running.append((fname, n, p))
         still = []
         for fname, n, p in running:
